@@ -128,6 +128,15 @@ def apply_op(u, name, args):
     raise ValueError("op " + name)
 
 
+def touch(u):
+    """use an intermediate value the way a caller might between two derivations: hash it,
+    print it, compare it with itself, read every accessor (fills every per-object cache)"""
+    att(lambda: hash(u))
+    att(lambda: u == u)
+    observe_raw(u)
+    observe_dec(u)
+
+
 def run_prog(prog):
     stack = []
     for ins in prog:
@@ -136,6 +145,8 @@ def run_prog(prog):
             stack.append(ctor(ins[1]))
         elif t == "op":
             stack[-1] = apply_op(stack[-1], ins[1], ins[2:])
+        elif t == "touch":
+            touch(stack[-1])
         elif t == "join":
             ref = stack.pop()
             base = stack.pop()
